@@ -727,8 +727,15 @@ func c15HelperLoop(c *kit.Ctx, a *c15Anchors, r1 *kit.Rule) {
 	st := &kit.Std{F: f}
 	// element copies: X := NodeEdgeChildren{NodeEdge: <elem>}
 	elemOf := func(s kit.S, e ast.Expr) bool {
-		o := kit.ObjOf(info, e)
-		return o != nil && s.Get("el") == kit.VarID(o)
+		if o := kit.ObjOf(info, e); o != nil && s.Get("el") == kit.VarID(o) {
+			return true
+		}
+		// <listing>[i] under `for i := range <listing>` is the element as well
+		if ix, ok := ast.Unparen(e).(*ast.IndexExpr); ok && kit.ObjOf(info, ix.X) == listVar {
+			k := kit.ObjOf(info, ix.Index)
+			return k != nil && s.Get("elk") == kit.VarID(k)
+		}
+		return false
 	}
 	st.OnBranch = func(br kit.Branch, s kit.S) (t, fs []kit.S, handled bool) {
 		if br.Kind != kit.BrRange || kit.ObjOf(info, br.Range.X) != listVar {
@@ -738,7 +745,9 @@ func c15HelperLoop(c *kit.Ctx, a *c15Anchors, r1 *kit.Rule) {
 			m.undec("the loop over %s can be reached before the listing call", listVar.Name())
 		}
 		if s.Get("it") == "1" {
+			// "?" = a recursion / an append the rule could not follow (reported as undecided where it was met)
 			switch {
+			case s.Get("rec") == "?" || s.Get("app") == "?":
 			case s.Get("rec") != "1":
 				m.viol("a path through the loop body at %s reaches the next child without recursing into the current one: that child's subtree (or the child itself) is missing from the export", f.At(br.Range))
 			case s.Get("app") != "1":
@@ -749,11 +758,17 @@ func c15HelperLoop(c *kit.Ctx, a *c15Anchors, r1 *kit.Rule) {
 		if o := kit.LoopElemVar(info, br.Range); o != nil {
 			elem = kit.VarID(o)
 		}
-		if elem == "" {
-			m.undec("the loop over the children does not bind the element to a variable")
+		key := ""
+		if br.Range.Key != nil {
+			if o := kit.ObjOf(info, br.Range.Key); o != nil {
+				key = kit.VarID(o)
+			}
+		}
+		if elem == "" && key == "" {
+			m.undec("the loop over the children binds neither the element nor its index to a variable")
 		}
 		base := s.Del("rec").Del("app").Del("x").Del("inplace")
-		return []kit.S{base.Set("it", "1").Set("el", elem)}, []kit.S{base.Del("it").Del("el").Set("done", "1")}, true
+		return []kit.S{base.Set("it", "1").Set("el", elem).Set("elk", key)}, []kit.S{base.Del("it").Del("el").Del("elk").Set("done", "1")}, true
 	}
 	st.OnCall = func(call *ast.CallExpr, n ast.Node, s kit.S) []kit.S {
 		if f.CalleeFunc(call) == a.list && call == listCall {
@@ -789,6 +804,7 @@ func c15HelperLoop(c *kit.Ctx, a *c15Anchors, r1 *kit.Rule) {
 				}
 			}
 			m.undec("the recursive call %s does not pass the address of a NodeEdgeChildren built from the loop element", f.Str(call))
+			return []kit.S{s.Set("rec", "?")}
 		}
 		return nil
 	}
@@ -852,7 +868,16 @@ func c15HelperLoop(c *kit.Ctx, a *c15Anchors, r1 *kit.Rule) {
 					}
 				}
 			}
+			// slices.Grow(N.Children, n) adds capacity only
+			if gr, ok := ast.Unparen(as.Rhs[0]).(*ast.CallExpr); ok && len(gr.Args) == 2 && c15Field(info, gr.Args[0], "Children", isN) {
+				if fn, ok := kit.Callee(info, gr).(*types.Func); ok && fn.Pkg() != nil && fn.Pkg().Path() == "slices" && fn.Name() == "Grow" {
+					return []kit.S{s}
+				}
+			}
 			m.undec("%s: Children is assigned in a way the rule does not model", f.Str(as))
+			if s.Get("it") == "1" {
+				return []kit.S{s.Set("app", "?")}
+			}
 		}
 		return []kit.S{s}
 	}
@@ -913,6 +938,11 @@ func c15ExporterRoot(c *kit.Ctx, a *c15Anchors, r1 *kit.Rule) {
 			for _, arg := range call.Args {
 				if u, ok := ast.Unparen(arg).(*ast.UnaryExpr); ok && u.Op == token.AND {
 					if ob := kit.ObjOf(info, u.X); ob != nil && c15IsNEC(ob.Type()) {
+						return []kit.S{s.Set("t:"+kit.VarID(ob), "fresh")}
+					}
+					// &X.Nodes[0], &list[0]: the helper fills in a NodeEdgeChildren held
+					// (through fields and slice elements) by the local X, so X carries it
+					if ob := c15PathRoot(info, u.X); ob != nil && c15IsNEC(info.TypeOf(u.X)) {
 						return []kit.S{s.Set("t:"+kit.VarID(ob), "fresh")}
 					}
 				}
@@ -981,6 +1011,32 @@ func c15ExporterRoot(c *kit.Ctx, a *c15Anchors, r1 *kit.Rule) {
 		m.undec("yaml.Marshal is not reached")
 	}
 	m.settle(o, "marshalled value carries the root after the helper call")
+}
+
+// c15PathRoot returns the local variable at the root of a path of field
+// selections and index expressions (x.F[i].G …), nil for anything else.
+func c15PathRoot(info *types.Info, e ast.Expr) types.Object {
+	steps := 0
+	for {
+		switch x := ast.Unparen(e).(type) {
+		case *ast.SelectorExpr:
+			if sel := info.Selections[x]; sel == nil || sel.Kind() != types.FieldVal {
+				return nil
+			}
+			e = x.X
+		case *ast.IndexExpr:
+			e = x.X
+		case *ast.Ident:
+			v, ok := info.ObjectOf(x).(*types.Var)
+			if !ok || steps == 0 || v.IsField() || v.Parent() == nil || v.Parent() == v.Pkg().Scope() {
+				return nil
+			}
+			return v
+		default:
+			return nil
+		}
+		steps++
+	}
 }
 
 func c15Taint(s kit.S, ob types.Object, rhs ast.Expr, mentions func(ast.Node, kit.S, string) bool) kit.S {
